@@ -19,41 +19,73 @@ MC_NoGMaps == {NoMap}
 MC_GMaps3 == {NoMap, M1, M3}
 MC_RootUid == Zero
 MC_TestUid == Id(0, 1)
-\* all subsets of the modelled defects (S6a S6b S7a S7b RM), named by bit mask, for the generated configs
-D_00000 == {}
-D_10000 == {"S6a"}
-D_01000 == {"S6b"}
-D_11000 == {"S6a", "S6b"}
-D_00100 == {"S7a"}
-D_10100 == {"S6a", "S7a"}
-D_01100 == {"S6b", "S7a"}
-D_11100 == {"S6a", "S6b", "S7a"}
-D_00010 == {"S7b"}
-D_10010 == {"S6a", "S7b"}
-D_01010 == {"S6b", "S7b"}
-D_11010 == {"S6a", "S6b", "S7b"}
-D_00110 == {"S7a", "S7b"}
-D_10110 == {"S6a", "S7a", "S7b"}
-D_01110 == {"S6b", "S7a", "S7b"}
-D_11110 == {"S6a", "S6b", "S7a", "S7b"}
-D_00001 == {"RM"}
-D_10001 == {"S6a", "RM"}
-D_01001 == {"S6b", "RM"}
-D_11001 == {"S6a", "S6b", "RM"}
-D_00101 == {"S7a", "RM"}
-D_10101 == {"S6a", "S7a", "RM"}
-D_01101 == {"S6b", "S7a", "RM"}
-D_11101 == {"S6a", "S6b", "S7a", "RM"}
-D_00011 == {"S7b", "RM"}
-D_10011 == {"S6a", "S7b", "RM"}
-D_01011 == {"S6b", "S7b", "RM"}
-D_11011 == {"S6a", "S6b", "S7b", "RM"}
-D_00111 == {"S7a", "S7b", "RM"}
-D_10111 == {"S6a", "S7a", "S7b", "RM"}
-D_01111 == {"S6b", "S7a", "S7b", "RM"}
-D_11111 == {"S6a", "S6b", "S7a", "S7b", "RM"}
-MC_AllDefects == D_11111
-MC_None == D_00000
+\* all subsets of the defect ids of VfsImpl (S6a S6b S7a S7b RM XU), named by bit mask, for the configs.
+\* D_001100 = {S7a, S7b} is the code as it is (the two restore findings are not fixed); XU is a model-only
+\* seeded defect (umount leaves the superblock) used by the anti-vacuity run of C07.
+D_000000 == {}
+D_100000 == {"S6a"}
+D_010000 == {"S6b"}
+D_110000 == {"S6a", "S6b"}
+D_001000 == {"S7a"}
+D_101000 == {"S6a", "S7a"}
+D_011000 == {"S6b", "S7a"}
+D_111000 == {"S6a", "S6b", "S7a"}
+D_000100 == {"S7b"}
+D_100100 == {"S6a", "S7b"}
+D_010100 == {"S6b", "S7b"}
+D_110100 == {"S6a", "S6b", "S7b"}
+D_001100 == {"S7a", "S7b"}
+D_101100 == {"S6a", "S7a", "S7b"}
+D_011100 == {"S6b", "S7a", "S7b"}
+D_111100 == {"S6a", "S6b", "S7a", "S7b"}
+D_000010 == {"RM"}
+D_100010 == {"S6a", "RM"}
+D_010010 == {"S6b", "RM"}
+D_110010 == {"S6a", "S6b", "RM"}
+D_001010 == {"S7a", "RM"}
+D_101010 == {"S6a", "S7a", "RM"}
+D_011010 == {"S6b", "S7a", "RM"}
+D_111010 == {"S6a", "S6b", "S7a", "RM"}
+D_000110 == {"S7b", "RM"}
+D_100110 == {"S6a", "S7b", "RM"}
+D_010110 == {"S6b", "S7b", "RM"}
+D_110110 == {"S6a", "S6b", "S7b", "RM"}
+D_001110 == {"S7a", "S7b", "RM"}
+D_101110 == {"S6a", "S7a", "S7b", "RM"}
+D_011110 == {"S6b", "S7a", "S7b", "RM"}
+D_111110 == {"S6a", "S6b", "S7a", "S7b", "RM"}
+D_000001 == {"XU"}
+D_100001 == {"S6a", "XU"}
+D_010001 == {"S6b", "XU"}
+D_110001 == {"S6a", "S6b", "XU"}
+D_001001 == {"S7a", "XU"}
+D_101001 == {"S6a", "S7a", "XU"}
+D_011001 == {"S6b", "S7a", "XU"}
+D_111001 == {"S6a", "S6b", "S7a", "XU"}
+D_000101 == {"S7b", "XU"}
+D_100101 == {"S6a", "S7b", "XU"}
+D_010101 == {"S6b", "S7b", "XU"}
+D_110101 == {"S6a", "S6b", "S7b", "XU"}
+D_001101 == {"S7a", "S7b", "XU"}
+D_101101 == {"S6a", "S7a", "S7b", "XU"}
+D_011101 == {"S6b", "S7a", "S7b", "XU"}
+D_111101 == {"S6a", "S6b", "S7a", "S7b", "XU"}
+D_000011 == {"RM", "XU"}
+D_100011 == {"S6a", "RM", "XU"}
+D_010011 == {"S6b", "RM", "XU"}
+D_110011 == {"S6a", "S6b", "RM", "XU"}
+D_001011 == {"S7a", "RM", "XU"}
+D_101011 == {"S6a", "S7a", "RM", "XU"}
+D_011011 == {"S6b", "S7a", "RM", "XU"}
+D_111011 == {"S6a", "S6b", "S7a", "RM", "XU"}
+D_000111 == {"S7b", "RM", "XU"}
+D_100111 == {"S6a", "S7b", "RM", "XU"}
+D_010111 == {"S6b", "S7b", "RM", "XU"}
+D_110111 == {"S6a", "S6b", "S7b", "RM", "XU"}
+D_001111 == {"S7a", "S7b", "RM", "XU"}
+D_101111 == {"S6a", "S7a", "S7b", "RM", "XU"}
+D_011111 == {"S6b", "S7a", "S7b", "RM", "XU"}
+D_111111 == {"S6a", "S6b", "S7a", "S7b", "RM", "XU"}
 ASSUME \A m \in MC_Maps3 : WellFormed(m)
 \* C14: "ids outside the mapped range pass unchanged and translation there and back is the identity on the range",
 \* for every id of the (small) id space and every candidate mapping
